@@ -424,13 +424,19 @@ def inTranscript (typ : Nat) : Bool :=
 def clearPostHvr (e : Ep) : Ep :=
   if e.ctx.postHvr then { e with ctx := { e.ctx with postHvr := false } } else e
 
-/-- fragment buffer: reset on another message or on offset 0; then the fragment is appended only
-if it continues the buffer (`fragment_offset == buffer.len()`), otherwise it is ignored (`none`) -/
+/-- fragment buffer: reset on another message or on offset 0; then a fragment that starts inside or at
+the end of the buffer (`fragment_offset ≤ buffer.len()`) and reaches beyond it contributes the bytes
+beyond it (fragment ranges may overlap); any other fragment is ignored -/
 def resetFrag (c : Ctx) (m : HsMsg) : Ctx :=
   if c.incompleteSeq ≠ m.msgSeq || m.fragOff = 0
   then { c with incomplete := [], incompleteSeq := m.msgSeq } else c
 
-def appendFrag (c : Ctx) (m : HsMsg) : Ctx := { c with incomplete := c.incomplete ++ m.body }
+def appendFrag (c : Ctx) (m : HsMsg) : Ctx :=
+  { c with incomplete := c.incomplete ++ m.body.drop (c.incomplete.length - m.fragOff) }
+
+/-- the fragment neither leaves a gap after the buffer nor lies wholly inside it -/
+def fragUseful (c : Ctx) (m : HsMsg) : Bool :=
+  decide (m.fragOff ≤ c.incomplete.length) && decide (c.incomplete.length < m.fragOff + m.body.length)
 
 /-- `recv_message_seq += 1` and the transcript rule -/
 def noteMsg (c : Ctx) (typ : Nat) (raw : Bytes) : Ctx :=
@@ -444,7 +450,7 @@ def acceptMsg (C : Crypto) (L : Loc) (e : Ep) (m : HsMsg) : R :=
   let e0 := clearPostHvr e
   if m.totalLen ≠ m.body.length then
     let c1 := resetFrag e0.ctx m
-    if m.fragOff ≠ c1.incomplete.length then ok (withCtx e0 c1)
+    if !fragUseful c1 m then ok (withCtx e0 c1)
     else
       let c2 := appendFrag c1 m
       if c2.incomplete.length < m.totalLen then ok (withCtx e0 c2)
